@@ -307,7 +307,7 @@ func (w *World) BuildMsg(e Event) (msg sdk.Msg, commit func()) {
 		}
 		m := &bitcointypes.MsgNewBlockHashes{Proposer: rel.Proposer, StartBlockNumber: start, BlockHash: hashes}
 		m.Vote = w.Vote(m.MethodName(), m.VoteSigDoc())
-		if e.Var == "chained" || e.Var == "" {
+		if e.Var == "chained" || e.Var == "" || e.Var == "empty-list" {
 			w.Bot.Votes = append(w.Bot.Votes, StoredVote{Msg: m, Desc: fmt.Sprintf("hashes@seq%d", m.Vote.Sequence)})
 		}
 		if e.Var == "chained" {
